@@ -13,6 +13,7 @@ static struct { const char *name; int (*fn)(FILE *, FILE *); } cmds[] = {
     {"ranges", cmd_ranges},
     {"copy", cmd_copy},
     {"feed", cmd_feed},
+    {"update", cmd_update},
     {NULL, NULL}
 };
 
